@@ -26,7 +26,8 @@ CLASSES = {1: "pool-below-sum-of-active", 2: "pool-differs-from-sum-of-active-wi
            3: "beginblock-credit-differs-from-amount-due-at-this-height", 4: "negative-reward-balance",
            5: "beginblock-pays-negative-matured-undelegation", 6: "beginblock-pays-negative-matured-reward-withdrawal",
            7: "negative-delegator-balance", 8: "negative-active-delegation",
-           9: "reward-accrual-not-proportional-to-committed-active-delegations"}
+           9: "reward-accrual-not-proportional-to-committed-active-delegations",
+           10: "pending-entry-of-a-reached-height-not-cleared"}
 
 
 def evaluate(ctx, vh, args, tag="c12"):
@@ -89,7 +90,7 @@ def judge(ctx, cases, mm, mon, tr):
             continue
         stats["violating_cases"].add(ci)
         if ctx.violations < 3:
-            ctx.violation("%s_%d" % (cases[ci]["spec"]["name"], step), payload(cases[ci], step, cl))
+            ctx.violation("%s_%d_class%d" % (cases[ci]["spec"]["name"], step, cl), payload(cases[ci], step, cl))
     bad_mm = []
     for (ci, step) in mm:
         negund, negrw, negri = tr[ci]
@@ -153,6 +154,9 @@ def run(ctx):
         "successful_reinvests_directly_after_a_successful_undelegate": rep["successful_reinvests_directly_after_a_successful_undelegate"],
         "successful_reinvests_directly_after_an_undelegate_by_another_delegator": rep["successful_reinvests_directly_after_an_undelegate_by_another_delegator"],
         "node_restarts": rep["node_restarts"],
+        "reward_withdrawals_maturing_at_a_block_that_begins_with_an_empty_pool": rep["reward_withdrawals_maturing_at_a_block_that_begins_with_an_empty_pool"],
+        "undelegations_maturing_at_a_block_that_begins_with_an_empty_pool": rep["undelegations_maturing_at_a_block_that_begins_with_an_empty_pool"],
+        "blocks_beginning_with_an_empty_pool_after_block_1": rep["blocks_beginning_with_an_empty_pool_after_block_1"],
         "model_mismatches": len(mm), "monitor_failures": len(mon),
         "cases_in_negative_undelegate_trigger_region": sum(1 for t in tr if t[0]),
         "cases_in_negative_reward_withdrawal_trigger_region": sum(1 for t in tr if t[1]),
